@@ -224,11 +224,18 @@ NOT_APPLICABLE = {
 
 # clauses added after the first claim texts were written (see DESIGN.md §4 for the exact statements)
 EXTRA = {
-    "C03": "Also decided: types_compatible never equates distinct nominal/generic heads (NOMINAL, decision table); checker "
+    "C03": "Also decided: a parser function that lexes a substring again receives a base offset or its result is rebased "
+           "(SUBSPAN); types_compatible never equates distinct nominal/generic heads (NOMINAL, decision table); checker "
            "context set on entry to a nested body is restored on exit (CTXSCOPE); two run-time names are related only by "
            "equality or hash lookup, never by prefix/suffix/substring (NAMEEQ).",
-    "C05": "The bounds guard is type-aware and follows the index into a crate-local normalising helper; explicit "
-           "saturating_*/checked_* arithmetic counts as overflow-safe, wrapping_* as a finding.",
+    "C05": "Index and slice normalisation are now decided semantically for ALL indices: relational abstract "
+           "interpretation (rules/idxeval.py: linear forms over idx/len/end/step, polyhedra refined at every branch, "
+           "Fourier-Motzkin decisions, two symbolic loop iterations) compares list_get, list_get_mut, "
+           "normalize_index, str_slice and list_slice with Python's indexing and slice.indices over every region of "
+           "the input space (INDEXMAP, SLICEMAP; violations come with an integer witness; paths through unmodelled "
+           "operations are counted as undecided and never reported). The bounds guard is discharged by INDEXMAP or "
+           "checked structurally; explicit saturating_*/checked_* arithmetic counts as overflow-safe, wrapping_* as a "
+           "finding. The syntactic sibling comparison of the two slice kernels is no longer armed.",
     "C06": "Also decided: both operands of a binary const expression are evaluated on every path (OPERANDS); the const "
            "evaluator never folds //, %, /, ** with Rust's native operators (RAWARITH, with a detector self-check on "
            "the incan_core kernels).",
